@@ -2,6 +2,8 @@
 (* C20 - LFRic built-ins compute their documented operations.                *)
 (*                                                                            *)
 (* A case pairs                                                               *)
+(*   docs  a sequence (one entry per built-in of the invoke, in call order)   *)
+(*         of [doc, bind]:                                                    *)
 (*   doc   the built-in's DEFINITION as the user guide states it              *)
 (*         (`field3(:) = field1(:) + field2(:)`, `innprod = SUM(...)`, the    *)
 (*         setval_random loop), parsed at check time into pv-ast with the     *)
@@ -44,17 +46,20 @@ LayoutOf(c) ==
   IF c.dm THEN L
   ELSE [owned |-> L.undf, annexed |-> L.undf, undf |-> L.undf]  \* one process owns all
 
-\* the definition is a reduction iff it assigns to a scalar
-DocIsReduction(c) == c.doc.k = "assign" /\ c.doc.lhs.k = "ref"
-DocIsRandom(c) == c.doc.k = "loop"
+\* a definition is a reduction iff it assigns to a scalar
+IsReductionDoc(d) == d.k = "assign" /\ d.lhs.k = "ref"
+IsRandomDoc(d) == d.k = "loop"
+\* setval_random (values unspecified) is judged on its own only
+DocIsRandom(c) == Len(c.docs) = 1 /\ IsRandomDoc(c.docs[1].doc)
 
 \* documented range 1..DocHi: the owned DoFs; owned and annexed DoFs when
 \* COMPUTE_ANNEXED_DOFS is set and distributed memory is on (user guide,
 \* "Annexed DoFs"); reductions always sum the owned DoFs only (an annexed DoF
 \* is owned by another process and would be counted twice)
-DocHi(c) ==
+DocHiOf(c, reduction) ==
   LET L == LayoutOf(c) IN
-  IF c.dm /\ c.ann /\ ~DocIsReduction(c) THEN L.annexed ELSE L.owned
+  IF c.dm /\ c.ann /\ ~reduction THEN L.annexed ELSE L.owned
+FieldHi(c) == DocHiOf(c, FALSE)        \* range of every field-valued definition
 
 \* -------------------------------------------- binding the definition's names
 ILit(v) == [k |-> "lit", t |-> "int", v |-> v]
@@ -113,11 +118,12 @@ PowS(s, st) ==
     [] OTHER -> s
 
 \* ---------------------------------------------------------- OpenMP regions
-\* Serial semantics of the generated directives for T threads: the threads run
-\* one after the other (one admissible execution of a race-free region; races
-\* are C09's subject).  Every thread starts with undefined private variables,
-\* executes the replicated statements of the region, and of a work-shared loop
-\* the contiguous chunk schedule(static) gives it.  A reduction(+:x) clause
+\* Serial semantics of the generated directives for T threads: within one
+\* statement of a region the threads run one after the other (one admissible
+\* execution of a race-free region; races are C09's subject).  Every thread
+\* starts with undefined private variables, executes the replicated statements
+\* of the region, and of a work-shared loop the contiguous chunk
+\* schedule(static) gives it.  A reduction(+:x) clause
 \* gives the thread a private x initialised to zero that is added to the
 \* original x at the end of the loop.
 GetScal(M, nm) == M.st[nm].d[1]
@@ -156,34 +162,61 @@ RunOmpDo(M, d, t, T) ==
               M1 == ExecStmt(ZeroAll(M, d.red, 1), ChunkOf(s, lo.v, stp.v, trip, t, T))
           IN IF M1.sig # "" THEN M1 ELSE Combine(M1, d.red, saved, 1)
 
-RECURSIVE ThreadBody(_, _, _, _, _)
-ThreadBody(M, body, i, t, T) ==
+\* The statements of a region are executed one after the other, each by every
+\* thread in turn (the implicit barrier at the end of a work-shared loop: a
+\* later loop of the region sees what every thread did in an earlier one);
+\* pv[t] holds the private variables of thread t between its turns.
+RECURSIVE LoadPriv(_, _, _, _)
+LoadPriv(M, names, vals, i) ==
+  IF i > Len(names) THEN M ELSE LoadPriv(SetScal(M, names[i], vals[i]), names, vals, i + 1)
+SavePriv(M, names) == [i \in DOMAIN names |-> GetScal(M, names[i])]
+
+RECURSIVE RegionThreads(_, _, _, _, _, _)
+RegionThreads(M, s, names, pv, t, T) ==
+  IF M.sig # "" \/ t > T THEN [M |-> M, pv |-> pv]
+  ELSE LET M0 == SetScal(LoadPriv(M, names, pv[t], 1), "pv_tid", VI(t - 1))
+           M1 == IF s.k = "ompdo" THEN RunOmpDo(M0, s, t, T) ELSE ExecStmt(M0, s)
+       IN IF M1.sig # "" THEN [M |-> M1, pv |-> pv]
+          ELSE RegionThreads(M1, s, names, [pv EXCEPT ![t] = SavePriv(M1, names)], t + 1, T)
+
+RECURSIVE RegionBody(_, _, _, _, _, _)
+RegionBody(M, body, i, names, pv, T) ==
   IF M.sig # "" \/ i > Len(body) THEN M
-  ELSE ThreadBody(IF body[i].k = "ompdo" THEN RunOmpDo(M, body[i], t, T)
-                  ELSE ExecStmt(M, body[i]),
-                  body, i + 1, t, T)
+  ELSE LET r == RegionThreads(M, body[i], names, pv, 1, T) IN
+       RegionBody(r.M, body, i + 1, names, r.pv, T)
 
-RECURSIVE Threads(_, _, _, _, _)
-Threads(M, body, priv, t, T) ==
-  IF M.sig # "" \/ t > T THEN M
-  ELSE LET M0 == SetScal(PoisonAll(M, priv, 1), "pv_tid", VI(t - 1))
-       IN Threads(ThreadBody(M0, body, 1, t, T), body, priv, t + 1, T)
-
-ParRegion(M, body, priv, T) ==
+\* A private ARRAY (every array of the generated code is the data POINTER of a
+\* field) has an undefined association inside the region and what is stored
+\* through it never reaches the field: undefined behaviour.  A firstprivate
+\* pointer is a copy of the association: it still designates the field's data,
+\* i.e. the data stays shared.  A firstprivate scalar starts with the original
+\* value in every thread; the original keeps its value.
+ParRegion(M, body, priv, fpriv, T) ==
   IF \E i \in DOMAIN priv : priv[i] \notin DOMAIN M.st \/ M.st[priv[i]].ex # <<>> THEN Ub(M)
-  ELSE LET M1 == Threads(M, body, priv, 1, T) IN
-       IF M1.sig # "" THEN M1 ELSE PoisonAll(SetScal(M1, "pv_tid", POISON), priv, 1)
+  ELSE IF \E i \in DOMAIN fpriv : fpriv[i] \notin DOMAIN M.st THEN Ub(M)
+  ELSE LET fsc == SelectSeq(fpriv, LAMBDA nm : M.st[nm].ex = <<>>)
+           names == priv \o fsc
+           orig == [i \in DOMAIN fsc |-> GetScal(M, fsc[i])]
+           pv0 == [t \in 1..T |-> [i \in DOMAIN names |->
+                                      IF i <= Len(priv) THEN POISON ELSE orig[i - Len(priv)]]]
+           M1 == RegionBody(M, body, 1, names, pv0, T) IN
+       IF M1.sig # "" THEN M1
+       ELSE LoadPriv(PoisonAll(SetScal(M1, "pv_tid", POISON), priv, 1), fsc, orig, 1)
 
-LoopVarsOf(body) ==     \* loop variables of work-shared loops are private
-  LET idx == {i \in DOMAIN body : body[i].k = "ompdo"} IN
-  IF idx = {} THEN <<>> ELSE <<body[CHOOSE i \in idx : TRUE].loop.var>>
+LoopVarsOf(body, priv) ==   \* loop variables of work-shared loops are private
+  LET vs == {body[i].loop.var : i \in {j \in DOMAIN body : body[j].k = "ompdo"}}
+            \ SeqSet(priv)
+      RECURSIVE AsSeq(_)
+      AsSeq(S) == IF S = {} THEN <<>> ELSE LET x == CHOOSE y \in S : TRUE IN <<x>> \o AsSeq(S \ {x})
+  IN AsSeq(vs)
 
 ExecTopStmt(M, s, T) ==
   IF M.sig # "" THEN M
-  ELSE CASE s.k = "ompparallel" -> ParRegion(M, s.body, s.private \o LoopVarsOf(s.body), T)
+  ELSE CASE s.k = "ompparallel" -> ParRegion(M, s.body, s.private \o LoopVarsOf(s.body, s.private), s.firstprivate, T)
          [] s.k = "ompparalleldo" ->
               ParRegion(M, << [k |-> "ompdo", loop |-> s.loop, red |-> s.red] >>,
-                        s.private \o <<s.loop.var>>, T)
+                        s.private \o (IF s.loop.var \in SeqSet(s.private) THEN <<>>
+                                       ELSE <<s.loop.var>>), s.firstprivate, T)
          [] s.k = "ompdo" -> Ub(M)            \* orphaned work-sharing loop: not generated
          [] OTHER -> ExecStmt(M, s)
 RECURSIVE ExecTop(_, _, _, _)
@@ -198,11 +231,12 @@ WithConsts(st, L, T) ==
   put(put(put(put(put(st, "pv_last_dof_owned", L.owned), "pv_last_dof_annexed", L.annexed),
               "pv_undf", L.undf), "pv_nthreads", T), "pv_other", L.undf - 1)
 
-\* name of the data array the definition modifies ("" for a reduction)
-DocTarget(c) ==
-  LET lhs == IF DocIsRandom(c) THEN c.doc.body[1].lhs ELSE c.doc.lhs IN
-  IF lhs.k = "aref" /\ lhs.name \in DOMAIN c.bind /\ c.bind[lhs.name].k = "ref"
-  THEN c.bind[lhs.name].name ELSE ""
+\* name of the data array a definition modifies ("" for a reduction)
+TargetOf(e) ==
+  LET d == e.doc
+      lhs == IF IsRandomDoc(d) THEN d.body[1].lhs ELSE d.lhs IN
+  IF lhs.k = "aref" /\ lhs.name \in DOMAIN e.bind /\ e.bind[lhs.name].k = "ref"
+  THEN e.bind[lhs.name].name ELSE ""
 
 Ok == [v |-> "ok"]
 Bad(clause, nm, dof, got, want) ==
@@ -213,48 +247,78 @@ FirstDiff(a, b, lo, hi) ==
   LET ds == {p \in lo..hi : a[p] # b[p]} IN
   IF ds = {} THEN 0 ELSE CHOOSE p \in ds : \A q \in ds : p <= q
 
+\* the definitions of the invoke's built-ins one after the other, each over its
+\* documented range, from the values the previous ones left
+RECURSIVE RunDocs(_, _, _, _)
+RunDocs(M, c, i, st0) ==
+  IF M.sig # "" \/ i > Len(c.docs) THEN M
+  ELSE LET e == c.docs[i]
+           hi == DocHiOf(c, IsReductionDoc(e.doc)) IN
+       RunDocs(ExecStmt(M, PowS(BindAssign(e.doc, e.bind, hi), st0)), c, i + 1, st0)
+
+\* private clauses of the recorded code that name an array
+PrivArrays(prog, st) ==
+  UNION {IF prog[i].k \in {"ompparallel", "ompparalleldo"}
+         THEN {nm \in SeqSet(prog[i].private) : nm \in DOMAIN st /\ st[nm].ex # <<>>}
+         ELSE {} : i \in DOMAIN prog}
+
 Judge(c, val, fm, T) ==
   LET L == LayoutOf(c)
-      hi == DocHi(c)
+      hi == FieldHi(c)
       st0 == WithConsts(InitStore(c.decls, c.dom, val, fm), L, T)
       random == DocIsRandom(c)
-      reduction == DocIsReduction(c)
-      tgt == DocTarget(c)
-      \* the definition, over the documented range, from the original values
+      targets == {TargetOf(c.docs[i]) : i \in DOMAIN c.docs} \ {""}
+      nred == Cardinality({i \in DOMAIN c.docs : IsReductionDoc(c.docs[i].doc)})
+      \* the definitions, over the documented ranges, from the original values
       Mo == IF random THEN NewMachine(st0, <<>>, FALSE)
-            ELSE ExecStmt(NewMachine(st0, <<>>, FALSE),
-                          PowS(BindAssign(c.doc, c.bind, hi), st0))
+            ELSE RunDocs(NewMachine(st0, <<>>, FALSE), c, 1, st0)
       \* the generated code
       Mi == ExecTop(NewMachine(st0, <<>>, random), PowSeq(c.prog, st0), 1, T)
-      others == {i \in DOMAIN c.fields : c.fields[i] # tgt}
-      \* a field the definition does not modify that changed anywhere
-      otherBad == {i \in others :
-                     FirstDiff(Mi.st[c.fields[i]].d, st0[c.fields[i]].d, 1, L.undf) # 0}
+      tgt == IF random THEN TargetOf(c.docs[1]) ELSE ""
+      redBad == {i \in DOMAIN c.reds : GetScal(Mi, c.reds[i]) # GetScal(Mo, c.reds[i])}
+      fldBad == {i \in DOMAIN c.fields :
+                   FirstDiff(Mi.st[c.fields[i]].d, Mo.st[c.fields[i]].d, 1, L.undf) # 0}
       scalBad == {i \in DOMAIN c.scalars :
                      GetScal(Mi, c.scalars[i]) # st0[c.scalars[i]].d[1]}
+      privArr == PrivArrays(c.prog, st0)
   IN
-  IF L.undf # c.undf \/ (~random /\ ~reduction /\ tgt = "") \/ (reduction /\ c.red = "")
+  IF L.undf # c.undf \/ Len(c.docs) = 0 \/ nred # Len(c.reds)
+     \/ Cardinality(targets) + nred = 0
+     \/ (\E i \in DOMAIN c.docs : IsRandomDoc(c.docs[i].doc) /\ Len(c.docs) > 1)
   THEN [v |-> "BadCase"]
   ELSE IF Mo.sig # "" THEN [v |-> "discard"]
-  ELSE IF Mi.sig # "" THEN Bad("NoNewUndefined", "", 0, POISON, POISON)
-  ELSE IF reduction /\ GetScal(Mi, c.red) # GetScal(Mo, c.red)
-  THEN Bad("ReductionOverOwned", c.red, 0, GetScal(Mi, c.red), GetScal(Mo, c.red))
+  ELSE IF Mi.sig # ""
+  THEN (IF privArr # {}
+        THEN Bad("NoNewUndefined", CHOOSE nm \in privArr : TRUE, 0,
+                 [t |-> "thread-private array"], [t |-> "shared"])
+        ELSE Bad("NoNewUndefined", "", 0, POISON, POISON))
+  ELSE IF redBad # {}
+  THEN LET nm == c.reds[CHOOSE j \in redBad : TRUE] IN
+       Bad("ReductionOverOwned", nm, 0, GetScal(Mi, nm), GetScal(Mo, nm))
   ELSE IF random /\ (\E p \in 1..hi : <<tgt, p>> \notin Mi.wr)
   THEN LET p == CHOOSE q \in 1..hi : <<tgt, q>> \notin Mi.wr IN
        Bad("DocumentedValueInRange", tgt, p, [t |-> "notset"], [t |-> "any"])
   ELSE IF random /\ (\E p \in (hi + 1)..L.undf : <<tgt, p>> \in Mi.wr)
   THEN LET p == CHOOSE q \in (hi + 1)..L.undf : <<tgt, q>> \in Mi.wr IN
        Bad("UntouchedOutsideRange", tgt, p, [t |-> "set"], st0[tgt].d[p])
-  ELSE IF ~random /\ tgt # "" /\ FirstDiff(Mi.st[tgt].d, Mo.st[tgt].d, 1, hi) # 0
-  THEN LET p == FirstDiff(Mi.st[tgt].d, Mo.st[tgt].d, 1, hi) IN
-       Bad("DocumentedValueInRange", tgt, p, Mi.st[tgt].d[p], Mo.st[tgt].d[p])
-  ELSE IF tgt # "" /\ FirstDiff(Mi.st[tgt].d, st0[tgt].d, hi + 1, L.undf) # 0
-  THEN LET p == FirstDiff(Mi.st[tgt].d, st0[tgt].d, hi + 1, L.undf) IN
-       Bad("UntouchedOutsideRange", tgt, p, Mi.st[tgt].d[p], st0[tgt].d[p])
-  ELSE IF otherBad # {}
-  THEN LET i == CHOOSE j \in otherBad : TRUE
+  ELSE IF ~random /\ fldBad # {}
+  THEN \* a modified field inside its range: the documented value is missing;
+       \* anywhere else (beyond the range, another field): something was touched
+       LET inr == {i \in fldBad : c.fields[i] \in targets /\
+                      FirstDiff(Mi.st[c.fields[i]].d, Mo.st[c.fields[i]].d, 1, hi) # 0}
+           i == IF inr # {} THEN CHOOSE j \in inr : TRUE ELSE CHOOSE j \in fldBad : TRUE
            nm == c.fields[i]
-           p == FirstDiff(Mi.st[nm].d, st0[nm].d, 1, L.undf) IN
+           p == FirstDiff(Mi.st[nm].d, Mo.st[nm].d, 1, L.undf) IN
+       Bad(IF inr # {} THEN "DocumentedValueInRange" ELSE "UntouchedOutsideRange",
+           nm, p, Mi.st[nm].d[p], Mo.st[nm].d[p])
+  ELSE IF random /\ (\E i \in DOMAIN c.fields :
+                        FirstDiff(Mi.st[c.fields[i]].d, st0[c.fields[i]].d,
+                                  IF c.fields[i] = tgt THEN hi + 1 ELSE 1, L.undf) # 0)
+  THEN LET i == CHOOSE j \in DOMAIN c.fields :
+                   FirstDiff(Mi.st[c.fields[j]].d, st0[c.fields[j]].d,
+                             IF c.fields[j] = tgt THEN hi + 1 ELSE 1, L.undf) # 0
+           nm == c.fields[i]
+           p == FirstDiff(Mi.st[nm].d, st0[nm].d, IF nm = tgt THEN hi + 1 ELSE 1, L.undf) IN
        Bad("UntouchedOutsideRange", nm, p, Mi.st[nm].d[p], st0[nm].d[p])
   ELSE IF scalBad # {}
   THEN LET nm == c.scalars[CHOOSE j \in scalBad : TRUE] IN
@@ -280,7 +344,7 @@ Step ==
            ELSE IF j.v = "discard" THEN PrintT("DISCARD " \o ToJson([id |-> c.id]))
            ELSE PrintT("VERDICT " \o ToJson([id |-> c.id, v |-> j.v,
                                                w |-> [val |-> val, fm |-> fm, threads |-> nthr,
-                                                      hi |-> DocHi(c), detail |-> j]]))
+                                                      hi |-> FieldHi(c), detail |-> j]]))
   /\ UNCHANGED <<cid, val, fm, nthr>>
 
 Spec == Init /\ [][Step]_vars
